@@ -20,7 +20,7 @@ View == <<cfg, ls, w>>
 Threads == {1, 2}
 SSeq(S) == SetToSortSeq(S, <)
 Bd(nl, nv) == [nl |-> nl, nv |-> nv]
-B == CASE Scope = "lts" -> Bd(3, 2) [] Scope = "mc" -> Bd(4, 2) [] Scope = "thorough" -> Bd(5, 2) [] Scope = "trace" -> Bd(8, 3)
+B == CASE Scope \in {"lts", "lts2"} -> Bd(3, 2) [] Scope = "mc" -> Bd(4, 2) [] Scope = "thorough" -> Bd(5, 2) [] Scope = "trace" -> Bd(8, 3)
 Cfgs == IF Scope = "lts" THEN {Bd(3, 1), Bd(2, 2)} ELSE {B}
 Vals == 1..cfg.nv
 
